@@ -596,7 +596,16 @@ redo:
 		if idx >= m.CaptureLength()-1 {
 			panic(newError(_UNKNOWN, "invalid capture index"))
 		}
-		capture := src[m.Capture(idx):m.Capture(idx+1)]
+		if m.IsPosCapture(idx) {
+			// a position capture has no text to compare with
+			return false, sp, m
+		}
+		cstart, cend := m.Capture(idx), m.Capture(idx+1)
+		if cend < cstart || cend > len(src) {
+			// the capture is still open: its end has not been recorded
+			panic(newError(_UNKNOWN, "invalid capture index"))
+		}
+		capture := src[cstart:cend]
 		for i := 0; i < len(capture); i++ {
 			if i+sp >= len(src) || capture[i] != src[i+sp] {
 				return false, sp, m
